@@ -3,6 +3,7 @@ import MosnVerif.Model.TlsSelect
 /-!
 Driver of C13. Case kinds (the first token after the kind is a class label computed by the generator, ignored here):
   sel|hs <cls> <ctxs> <sni> <protos>            => <index|err|nil>     GetConfigForClient directly / through a handshake
+  hsp <cls> <ctxs> <sni> <protos> <flags> <peer> => <index|err> ok|fail  selection + per-context client authentication
   msn <cls> <ctx> <sni>                          => T|F                provider.MatchedServerName
   mal <cls> <ctx> <protos>                       => T|F                provider.MatchedALPN
   auth <cls> <require> <verify>                  => <ClientAuthType>
@@ -32,6 +33,13 @@ def names? (s : String) : Option (List Name) :=
 
 def bool? (s : String) : Option Bool :=
   if s == "1" then some true else if s == "0" then some false else none
+
+def flags? (s : String) : Option (Bool × Bool) :=
+  match s.toList with
+  | [a, b] => match bool? (String.ofList [a]), bool? (String.ofList [b]) with
+    | some x, some y => some (x, y)
+    | _, _ => none
+  | _ => none
 
 def ctx? (s : String) : Option Ctx :=
   match s.splitOn ":" with
@@ -95,6 +103,26 @@ def run (caseToks impl : List String) : String :=
         verdict (okfail (serverAccepts (getClientAuth req ver) p)) r (r == okfail (specServerAccepts req ver p))
       | _, _, _ => "E E bad-case"
     else "E E unknown-kind"
+  | ["hsp", _, cs, sni, protos, flags, peer], [idx, res] =>
+    match ctxs? cs, name? sni, names? protos, (flags.splitOn "+").mapM flags?, peer? peer with
+    | some ps, some sni, some protos, some fl, some p =>
+      let outAt (o : Option Nat) : String :=
+        match o with
+        | some i => match fl[i]? with
+          | some (req, ver) => s!"{i} {okfail (serverAccepts (getClientAuth req ver) p)}"
+          | none => "E E"
+        | none => "err fail"
+      let specAt : String :=
+        match specSelect ps sni protos with
+        | some i => match fl[i]? with
+          | some (req, ver) => s!"{i} {okfail (specServerAccepts req ver p)}"
+          | none => "E E"
+        | none => "err fail"
+      let m := match select ps sni protos with
+        | .config o => outAt o
+        | .errNoCert => "err fail"
+      verdict m s!"{idx} {res}" (s!"{idx} {res}" == specAt)
+    | _, _, _, _, _ => "E E bad-case"
   | ["msn", _, c, sni], [r] =>
     match ctx? c, name? sni with
     | some c, some sni => verdict (tf (c.sniMatch sni)) r (r == tf (nameRule c sni))
